@@ -19,3 +19,12 @@ struct { char z[5]; } *anon_b3;
 union { long l; double d; } *anon_ub;
 unsigned long writer_len(void) { return state_b.len + (state_b.buf != 0) + (unsigned long) st_b + (unsigned long) cfg_b.a + (head_b ? (unsigned long) head_b->key : 0); }
 long writer_key(struct node *n) { return n ? n->key : 0; }
+struct ops_b {
+  struct { unsigned a; } (*get_a)(int);
+  struct { unsigned long b; } (*get_b)(int);
+  struct { unsigned char c[5]; } (*get_c)(int);
+  struct { float d; int e; } (*get_d)(int);
+  struct { long double f; } (*get_f)(int);
+  struct { void **g; } (*get_g)(int);
+};
+long writer_ops(struct ops_b *o) { return o && o->get_b ? 2 : 0; }
